@@ -85,8 +85,15 @@ def plan(seed, subbatch):
     life_candles = warm + cfg.randint(2, 30 if per_bucket == 1 else 10)
     fill_hex = kind == "hexital" and tf is not None and cfg.random() < 0.3
     lifespan_s = interval * life_candles
+    edge = sub_rng(seed, "life-edge").random()
+    if edge < 0.25:
+        # not a whole number of intervals: the cut-off falls between two candles
+        lifespan_s += sub_rng(seed, "life-frac").randint(1, max(1, interval - 1))
     short_life = False
-    if kind == "hexital" and per_bucket > 1 and sub_rng(seed, "short-life").random() < 0.12:
+    if edge >= 0.97:
+        # the smallest legal lifespan: zero (only candles carrying the newest timestamp are retained)
+        lifespan_s, short_life = 0, True
+    elif kind == "hexital" and per_bucket > 1 and sub_rng(seed, "short-life").random() < 0.12:
         short_life = True
         # a Hexital lifespan SHORTER than a member's timeframe: that member's window is the newest bucket alone
         # (no reading can be compared there; the retained window still has to be exact in every manager)
